@@ -747,6 +747,18 @@ impl DtlsInner {
                             ctx.incomplete_msg_seq = msg.message_seq;
                         }
 
+                        // Fragments are taken strictly in offset order: one that does not
+                        // continue the bytes buffered so far (reordered, duplicated or
+                        // overlapping, all legal per RFC 6347 4.2.3) or that would run past
+                        // total_length is dropped instead of being appended blindly, and the
+                        // peer's retransmission of the flight supplies it again.
+                        if msg.fragment_offset as usize != ctx.incomplete_handshake.len()
+                            || msg.fragment_offset as u64 + msg.fragment_length as u64
+                                > msg.total_length as u64
+                        {
+                            continue;
+                        }
+
                         ctx.incomplete_handshake.extend_from_slice(&msg.body[..]);
 
                         if ctx.incomplete_handshake.len() < msg.total_length as usize {
